@@ -338,6 +338,113 @@ fn check_group(w: &World, si: usize, seq: &[u8], parts: &[usize], only: Option<&
     (out, evals, nontrivial, (bc.batch + bc.join) as u64)
 }
 
+/// the command line program reading standard input (a pipe that stays open), interrupted by a real SIGINT after it has
+/// read n lines; one more line is then written so that the blocked read returns. The program must end by itself and
+/// print the aggregate table (or the rows) of a non-empty prefix of the n lines, never anything of the line written
+/// after the signal. Synchronisation: the harness waits until the pipe is drained (FIONREAD == 0), then 300 ms.
+fn cli_sigint_case(stmt: &str, n: usize, aggregate: bool) -> Result<Option<(Vec<String>, bool)>, String> {
+    use std::io::{Read, Write};
+    use std::os::fd::AsRawFd;
+    let bin = format!("{}/target/cli/release/sqlgrep", verif_dir());
+    if !std::path::Path::new(&bin).exists() {
+        return Ok(None);
+    }
+    static CNT: std::sync::atomic::AtomicU64 = std::sync::atomic::AtomicU64::new(0);
+    let defp = format!("{}/c19_cli_def_{}_{}.txt", sut::tmp_dir(), std::process::id(), CNT.fetch_add(1, Ordering::Relaxed));
+    std::fs::write(&defp, "CREATE TABLE t('k=([a-z]+)' => k TEXT, 'v=([0-9]+)' => v INT);").map_err(|e| e.to_string())?;
+    let mut child = std::process::Command::new(&bin).args(["-d", &defp, "--stdin", "--format", "json", "-c", stmt]).stdin(std::process::Stdio::piped()).stdout(std::process::Stdio::piped()).stderr(std::process::Stdio::null()).spawn().map_err(|e| e.to_string())?;
+    let mut stdin = child.stdin.take().unwrap();
+    let data: String = (1..=n).map(|i| format!("k=a v={}\n", i)).collect();
+    stdin.write_all(data.as_bytes()).map_err(|e| e.to_string())?;
+    let fd = stdin.as_raw_fd();
+    let start = std::time::Instant::now();
+    loop {
+        let mut pending: libc::c_int = 0;
+        let r = unsafe { libc::ioctl(fd, libc::FIONREAD, &mut pending) };
+        if r != 0 || pending == 0 || start.elapsed().as_secs() > 15 {
+            break;
+        }
+        std::thread::sleep(std::time::Duration::from_millis(2));
+    }
+    std::thread::sleep(std::time::Duration::from_millis(300));
+    unsafe { libc::kill(child.id() as i32, libc::SIGINT) };
+    std::thread::sleep(std::time::Duration::from_millis(50));
+    let _ = stdin.write_all(b"k=a v=1000000\n");
+    // the pipe stays open: the program has to end because of the interrupt, not because of end of input
+    let t0 = std::time::Instant::now();
+    let mut ended = false;
+    while t0.elapsed().as_secs() < 10 {
+        if let Ok(Some(_)) = child.try_wait() {
+            ended = true;
+            break;
+        }
+        std::thread::sleep(std::time::Duration::from_millis(5));
+    }
+    if !ended {
+        let _ = child.kill();
+    }
+    drop(stdin);
+    let mut out = String::new();
+    if let Some(mut so) = child.stdout.take() {
+        let _ = so.read_to_string(&mut out);
+    }
+    let _ = child.wait();
+    std::fs::remove_file(&defp).ok();
+    let _ = aggregate;
+    Ok(Some((out.lines().filter(|l| !l.is_empty()).map(|l| l.to_string()).collect(), ended)))
+}
+
+fn cli_sigint_layer(col: &Collector) {
+    let mut n_cases = 0u64;
+    let mut missing = false;
+    for (stmt, aggregate) in [("SELECT COUNT(*) AS n, SUM(v) AS s FROM t", true), ("SELECT k, COUNT(*) AS n, MAX(v) AS m FROM t GROUP BY k", true), ("SELECT v FROM t", false)] {
+        for n in [3usize, 40] {
+            let r = match cli_sigint_case(stmt, n, aggregate) {
+                Ok(Some(r)) => r,
+                Ok(None) => {
+                    missing = true;
+                    break;
+                }
+                Err(e) => {
+                    col.note(format!("command-line SIGINT case skipped: {}", e));
+                    continue;
+                }
+            };
+            n_cases += 1;
+            col.eval(1);
+            col.nontrivial(h64(&("cli-sigint", stmt, n)));
+            let (lines, ended) = r;
+            // acceptable outputs: the result over the first k lines for some 1 <= k <= n
+            let ok_output = if aggregate {
+                lines.len() == 1 && (1..=n).any(|k| {
+                    let j: J = serde_json::from_str(&lines[0]).unwrap_or(J::Null);
+                    j["n"].as_i64() == Some(k as i64) && (j["s"].as_i64() == Some((k * (k + 1) / 2) as i64) || j["m"].as_i64() == Some(k as i64))
+                })
+            } else {
+                !lines.is_empty() && lines.len() <= n && lines.iter().enumerate().all(|(i, l)| serde_json::from_str::<J>(l).ok().and_then(|j| j["v"].as_i64()) == Some(i as i64 + 1))
+            };
+            if !ended || !ok_output {
+                col.fail(fail(
+                    format!("interrupt:cli-sigint:{}:{}", if aggregate { "aggregate" } else { "select" }, if !ended { "did-not-end" } else if lines.is_empty() { "nothing-printed" } else { "output-not-for-a-prefix" }),
+                    format!("sqlgrep --stdin `{}` after {} lines and SIGINT (one more line written afterwards): ended by itself = {}, printed {:?}", stmt, n, ended, lines),
+                    json!({"layer": "cli-sigint", "statement": stmt, "n": n}),
+                    json!("the result over the first k lines, 1 <= k <= n; the program ends by itself"),
+                    json!({"ended": ended, "printed": lines}),
+                    n as u64,
+                ));
+            }
+        }
+        if missing {
+            break;
+        }
+    }
+    if missing {
+        col.note("CLI binary not built: command-line SIGINT layer skipped".into());
+    } else {
+        col.layer("command line program: SIGINT while reading standard input", n_cases, true, json!({"lines": [3, 40], "statements": 3}));
+    }
+}
+
 pub fn run(ctx: &Ctx) -> i32 {
     let col = Collector::new();
     let w = world();
@@ -412,6 +519,7 @@ pub fn run(ctx: &Ctx) -> i32 {
             }
         }
         col.layer("follow-mode interrupt (FollowFileExecutor in child processes)", nf, true, json!({"interrupt_points": "before load 0..4", "statements": 3}));
+        cli_sigint_layer(&col);
     }
     finish(
         ctx,
@@ -427,6 +535,12 @@ pub fn run(ctx: &Ctx) -> i32 {
 }
 
 pub fn replay(case: &J) -> Vec<Failure> {
+    if case["layer"].as_str() == Some("cli-sigint") {
+        let col = Collector::new();
+        cli_sigint_layer(&col);
+        let f = col.failures.lock().unwrap();
+        return f.values().flat_map(|v| v.iter().cloned()).filter(|f| f.case == *case).collect();
+    }
     let w = world();
     let seq: Vec<u8> = case["seq"].as_array().unwrap().iter().map(|x| x.as_u64().unwrap() as u8).collect();
     let parts: Vec<usize> = case["parts"].as_array().unwrap().iter().map(|x| x.as_u64().unwrap() as usize).collect();
